@@ -274,7 +274,7 @@ func NBNSBoundary(c *core.Ctx) {
 // Gen is the C17 correspondence run.
 func Gen(c *core.Ctx) {
 	r := c.Rnd
-	c.Res.Rule = "dns.name/dns.question: names of 1..127 labels (1..63 bytes) from the independent builder, plain / compressed / through pointer chains of depth 1..300, at every name offset of built messages, every truncation, pointer / label-length / count / RDLENGTH corruption, names assembled through pointers around the 255 byte limit, random mutation; mdns/nbns/nbns.names: well-formed mDNS and NBNS messages (names returned vs reference decoder), node status RDATA of every length around 1+18*NUM_NAMES (one entry / one byte short, exact, with statistics; last in the message, followed by a record / stray bytes, RDLENGTH overwritten; exact-capacity and roomy backing arrays); dns.rrs/dns.answers/dns.answers0 (DecodeAnswers on the zero DNSEntry)/dns.process: random responses (A, AAAA, CNAME chains, IPv4 reverse PTR, PTR records with other owners — DNS-SD service names, ip6.arpa nibble names, arbitrary owners — before / between / after the address records, MX, TXT, unassigned types, records in all sections) singly and in sequences of 1..3 responses (also malformed first, then well-formed, on the same handler; after every message the handler is probed with DNSFind / DNSExist / an empty response), with the same closure; merge/hostupd: random entries and update sequences from the five sources over a small value pool; dns.encname/dns.encquery: valid and boundary names. distinct = distinct protocol lines; non-trivial = the input passed the first length / offset test"
+	c.Res.Rule = "mdns.hist: HISTORIES of mDNS messages through one handler (responses, queries, probe queries, truncated responses from three stations, transaction ids 0 / 1 / random, time steps 0 s … 10 min around the five minutes a response is remembered) against the Lean state machine message by message incl. the cache keys, each message judged against the reference decoder unless it repeats a response of the same station and id processed less than five minutes before; dns.name/dns.question: names of 1..127 labels (1..63 bytes) from the independent builder, plain / compressed / through pointer chains of depth 1..300, at every name offset of built messages, every truncation, pointer / label-length / count / RDLENGTH corruption, names assembled through pointers around the 255 byte limit, random mutation; mdns/nbns/nbns.names: well-formed mDNS and NBNS messages (names returned vs reference decoder), node status RDATA of every length around 1+18*NUM_NAMES (one entry / one byte short, exact, with statistics; last in the message, followed by a record / stray bytes, RDLENGTH overwritten; exact-capacity and roomy backing arrays); dns.rrs/dns.answers/dns.answers0 (DecodeAnswers on the zero DNSEntry)/dns.process: random responses (A, AAAA, CNAME chains, IPv4 reverse PTR, PTR records with other owners — DNS-SD service names, ip6.arpa nibble names, arbitrary owners — before / between / after the address records, MX, TXT, unassigned types, records in all sections) singly and in sequences of 1..3 responses (also malformed first, then well-formed, on the same handler; after every message the handler is probed with DNSFind / DNSExist / an empty response), with the same closure; merge/hostupd: random entries and update sequences from the five sources over a small value pool; dns.encname/dns.encquery: valid and boundary names. distinct = distinct protocol lines; non-trivial = the input passed the first length / offset test"
 	for _, l := range c.CorpusLines() {
 		add(c, "corpus", l)
 	}
@@ -530,4 +530,5 @@ func Gen(c *core.Ctx) {
 	for _, l := range []int{0, 1, 34, 495, 496, 497, 498, 499, 500, 501, 600} {
 		add(c, "encquery-len", fmt.Sprintf("dns.encquery 1 0 %s 33", core.Hex(make([]byte, l))))
 	}
+	genHist(c, ipPool) // ProcessMDNS over message histories (the duplicate-response cache)
 }
